@@ -287,7 +287,7 @@ func (g *G) fnArgsFor(fn string) string {
 		if g.chance(0.4) {
 			return ""
 		}
-		return choose(g, `"later"`, `"in development"`, `""`, `"parameter"`, `"not  yet.  Ask  ops"`, "\"tab\there \"", `" x "`)
+		return choose(g, `"later"`, `"in development"`, `""`, `"parameter"`, `"not  yet.  Ask  ops"`, "\"tab\there \"", `" x "`, `"first", "second"`, `"only the first counts", "x", "y"`, `"", "ignored"`)
 	case "FnTyped":
 		return choose(g, `2, 10, "s"`, `1.5, 3, "x y"`, `0, -4, ""`, `7, 0, "é"`)
 	}
@@ -389,6 +389,14 @@ func Behaviour(r *rand.Rand, o Opts) *cfg.Config {
 	g.fnNames["env"] = "env"
 	g.fnNames["envInt"] = "envInt"
 	g.fnNames["todo"] = "todo"
+	// a configuration may register its own function under the name of a built-in one: its own wins
+	for _, b := range []string{"env", "todo", "envInt"} {
+		if g.chance(0.06) {
+			sym := choose(g, "Fn", "FnEcho")
+			c.Meta.Functions = append(c.Meta.Functions, cfg.KS{K: b, V: g.Ref(g.anyPkg(), sym)})
+			g.fnNames[b] = sym
+		}
+	}
 	// tags pool
 	// tag names overlap with service and parameter names (a graph keyed by bare names would confuse them) and differ by case
 	tagPool := []string{"t", "u-1", "v.w", "x_y", "s0", "a.b1", "p0", "T", "svc1"}
@@ -419,6 +427,32 @@ func Behaviour(r *rand.Rand, o Opts) *cfg.Config {
 		}
 		c.Params = append(c.Params, cfg.KV{K: name, V: v})
 		pnames = append(pnames, name)
+	}
+	// numeric twins: the integer n and the float n.0 are different values of different types, wherever they stand
+	if g.chance(0.3) {
+		n := int64(g.pick(9) + 1)
+		if g.chance(0.3) {
+			n = -n
+		}
+		c.Params = append(c.Params, cfg.KV{K: "numTwinI", V: cfg.Int(n)}, cfg.KV{K: "numTwinF", V: cfg.Float(float64(n), fmt.Sprintf("%d.0", n))})
+		pnames = append(pnames, "numTwinI", "numTwinF")
+	}
+	// a parameter may be named like a registered function (env, todo, fn, …): `%env%` is a reference to it, `%env(…)%` a call
+	if g.chance(0.15) {
+		fn := choose(g, "env", "todo", "envInt")
+		if n := g.fnName(); n != "" && g.chance(0.5) {
+			fn = n
+		}
+		if ref.IsYamlToken(fn) {
+			taken := false
+			for _, kv := range c.Params {
+				taken = taken || kv.K == fn
+			}
+			if !taken {
+				c.Params = append(c.Params, cfg.KV{K: fn, V: cfg.Str("a parameter named like a function")}, cfg.KV{K: "usesFnName" + fn, V: cfg.Str("<%" + fn + "%>")})
+				pnames = append(pnames, fn)
+			}
+		}
 	}
 	// services
 	ns := 1 + g.pick(o.MaxServices)
@@ -713,6 +747,10 @@ func (g *G) service(name string, before, params []string) cfg.Service {
 			} else {
 				s.Args = append(s.Args, cfg.Str(twin), l)
 			}
+			if g.chance(0.4) {
+				n := int64(g.pick(5) + 2)
+				s.Args = append(s.Args, cfg.Int(n), cfg.Float(float64(n), fmt.Sprintf("%d.0", n)))
+			}
 		}
 		if strings.HasSuffix(*s.Constructor, "NewErr") {
 			if o.Fail && g.chance(0.3) {
@@ -894,6 +932,10 @@ func (g *G) addGetters() {
 			continue
 		}
 		name := choose(g, "Get", "Fetch", "Obtain", "X") + strings.ToUpper(string(rune('A'+i))) + choose(g, "", "Svc", "_1")
+		if g.chance(0.08) {
+			// a getter spelled like a local name the generated file gives to an import (i<hex>_<last path element>)
+			name = fmt.Sprintf("i%x_%s", g.pick(4), choose(g, "pa", "pb", "fmt", "os", "lib", "container", "x_y_v2", "context"))
+		}
 		if used[name] {
 			continue
 		}
